@@ -21,8 +21,9 @@ RULE = ('(a) parameter grid: every shipped handler class + a user handler class 
         '(ssh_subsystem_name x config_mode x with_ns = 7x4x8) x ignore_errors pool x nc_params pool, all 7 getters compared '
         'with the model; nexus subsystem list on a string pool; (b) histories over slots: constructions (by advertised / '
         'unknown / absent name, user class; caller argument objects shared between constructions), getter calls with '
-        'in-place mutation of every returned list/dict, manager lookups, xpath with caller namespaces; quick: seeded random '
-        'histories (length 4..14, 2..4 slots), thorough: ALL histories of length <= 4 over 4 profiles x 3 operations. '
+        'in-place mutation of every returned list/dict, manager lookups, xpath with caller namespaces; systematic two-slot probes '
+        '(same class twice x getter x mutation mode; every ordered pair of classes); quick: seeded random '
+        'histories (length 4..14, 2..4 slots), thorough: ALL histories of length <= 5 over 4 profiles x 4 operations (25569) and 3000 random. '
         'Each history runs in a fresh process; distinct = distinct history; non-trivial = (grid) every case: a construction '
         'followed by all seven getters; (histories) at least two slots are used and at least one slot is observed after an '
         'operation on another slot.')
@@ -162,7 +163,8 @@ def run_impl_here(history):
         return pools[kind][i]
     slots = {}
     obs = []
-    for ev in history:
+    aux = {}      # event index -> what the handler's own vendor table says about a looked-up name (for the oracle)
+    for idx, ev in enumerate(history):
         kind, s = ev[0], ev[1]
         try:
             if kind == 'C':
@@ -201,6 +203,8 @@ def run_impl_here(history):
                     mutate(r, ev[3])
                 obs.append(o)
             elif kind == 'L':
+                v = dh.add_additional_operations().get(ev[2])
+                aux[idx] = None if v is None else [v.__name__, cls_module(v)]
                 a = getattr(m, ev[2])
                 if isinstance(a, functools.partial) and a.func == m.execute and len(a.args) == 1 and callable(a):
                     c = a.args[0]
@@ -228,7 +232,7 @@ def run_impl_here(history):
     args_ok = all(pools['nc'][i] == NC_POOL[i] for i in pools['nc']) and all(pools['ig'][i] == IGNORE_POOL[i] for i in pools['ig']) \
         and all(pools['xns'][i] == XNS_POOL[i] for i in pools['xns'])
     after = snapshot_globals()
-    return obs, (before == after), args_ok
+    return obs, (before == after), args_ok, aux
 
 def in_fresh_process(fn, *args):
     """Run fn(*args) in a forked child of this (pristine) process and return its result."""
@@ -347,23 +351,21 @@ def single_checks(history, obs, tables):
                     bad.append(('subsystem candidates of %r not duplicate-free with %r first: %r' % (c[2], first, o), first, o))
     return bad
 
-def lookup_checks(history, obs):
-    """Vendor precedence / standard operations callable, from the vendor table the same slot reported."""
+def lookup_checks(history, obs, aux):
+    """Vendor precedence / standard operations callable; aux = the handler's own vendor table entry per lookup."""
     bad = []
-    vend = {}
-    for e, o in zip(history, obs):
-        s = e[1]
-        if e[0] == 'C': vend.pop(s, None)
-        if e[0] in ('G', 'M') and e[2] == 5 and o[0] == 'vendor':
-            vend[s] = {k: (c, m) for k, c, m in o[1]}
-        if e[0] == 'L' and s in vend and o[0] != 'nothing':
+    for idx, (e, o) in enumerate(zip(history, obs)):
+        if e[0] == 'L' and o[0] != 'nothing':
             n = e[2]
-            if n in vend[s]:
-                if o != ['resolved', vend[s][n][0], vend[s][n][1]]:
-                    bad.append(('vendor operation %r does not resolve to the vendor class: %r' % (n, o), list(vend[s][n]), o))
+            v = aux.get(idx)
+            if v is not None:
+                if o != ['resolved', v[0], v[1]]:
+                    bad.append(('vendor operation %r does not resolve to the vendor class: %r' % (n, o), v, o))
             elif n in STD_OPS:
-                if o[0] != 'resolved' or o[1] != STD_OPS[n]:
+                if o[0] != 'resolved' or o[1] != STD_OPS[n] or not o[2].startswith('ncclient.operations.'):
                     bad.append(('standard operation %r not callable as %s: %r' % (n, STD_OPS[n], o), STD_OPS[n], o))
+            elif o != ['missing']:
+                bad.append(('name %r is in neither table but resolves to %r' % (n, o), ['missing'], o))
     return bad
 
 STD_OPS = {}
@@ -373,14 +375,8 @@ def load_std_ops():
 
 def judge(ctx, case_hist, res, memo, tables, report=True):
     """All oracle clauses for one executed history. memo: key -> result of the restricted histories."""
-    obs, glob_ok, args_ok = res
+    obs, glob_ok, args_ok, aux = res
     fails = []
-    for what, exp, act in single_checks(case_hist, obs, tables) + lookup_checks(case_hist, obs):
-        fails.append((what, exp, act))
-    if not glob_ok:
-        fails.append(('module-level / class-level state (XPATH_NAMESPACES, OPERATIONS, advertised names, _EXEMPT_ERRORS, _BASE_CAPABILITIES) changed during the history', 'unchanged', 'changed'))
-    if not args_ok:
-        fails.append(('a caller-owned argument object (nc_params / ignore_errors / namespaces) was modified by the library', 'unchanged', 'changed'))
     for i in sorted({e[1] for e in case_hist}):
         rh = restrict(case_hist, i)
         if len(rh) == len(case_hist): continue
@@ -390,9 +386,20 @@ def judge(ctx, case_hist, res, memo, tables, report=True):
             k = next(j for j in range(len(a)) if a[j] != b[j])
             fails.append(('slot %d observes %r at its event %d (%r) in the interleaved history but %r when the operations on other slots are removed'
                           % (i, a[k], k, rh[k], b[k]), b, a))
-    if report:
-        for what, exp, act in fails:
-            ctx.fail({'history': case_hist}, what, sig=None, expected=exp, actual=act)
+    for what, exp, act in single_checks(case_hist, obs, tables) + lookup_checks(case_hist, obs, aux):
+        fails.append((what, exp, act))
+    if not glob_ok:
+        fails.append(('module-level / class-level state (XPATH_NAMESPACES, OPERATIONS, advertised names, _EXEMPT_ERRORS, _BASE_CAPABILITIES) changed during the history', 'unchanged', 'changed'))
+    if not args_ok:
+        fails.append(('a caller-owned argument object (nc_params / ignore_errors / namespaces) was modified by the library', 'unchanged', 'changed'))
+    if report and fails:
+        h2 = case_hist
+        if not ctx.failures:                      # shrink the first failing history of the run
+            h2 = shrink(case_hist, tables, clause(fails[0][0]))
+            fails = [f for f in judge_one(h2, tables) if clause(f[0]) == clause(fails[0][0])] or fails
+        what, exp, act = fails[0]
+        if len(ctx.failures) < 25:
+            ctx.fail({'history': h2}, what, sig=None, expected=exp, actual=act)
     return fails
 
 def key_of(h): return json.dumps(h)
@@ -417,7 +424,9 @@ def gen_history(rng, names, lookups):
     igi, nci = rng.randrange(len(IGNORE_POOL)), rng.randrange(len(NC_POOL))
     def construct(s):
         r = rng.random()
-        src = rng.choice(names) if r < 0.72 else ('@user' if r < 0.84 else None if r < 0.9 else rng.choice(['bogus', 'Nexus', 'junos2', '']))
+        used = [e[2] for e in h if e[0] == 'C' and isinstance(e[2], str)]
+        if used and rng.random() < 0.35: src = rng.choice(used)          # same class on several slots: class-level state
+        else: src = rng.choice(names) if r < 0.72 else ('@user' if r < 0.84 else None if r < 0.9 else rng.choice(['bogus', 'Nexus', 'junos2']))
         if src is None and rng.random() < 0.5:
             dpi = [0, 0, 0]
         else:
@@ -451,8 +460,25 @@ def grid_histories(names):
                         hs.append([['C', 0, src, [si, mi, wi], igi, nci]] + gets)
     return hs
 
-def exhaustive_histories():
-    """thorough: every history of length <= 4 over 4 profiles (one slot each) x 3 operations."""
+def pair_histories(names):
+    """Systematic two-slot probes: (1) same class on two slots, one caller mutates a returned object, the other
+    slot is observed; (2) every ordered pair of classes: use everything on slot 0, observe everything on slot 1."""
+    hs = []
+    srcs = list(names) + ['@user']
+    for a in srcs:
+        for g in (0, 1, 2, 4, 5):
+            for mode in range(3):
+                hs.append([['C', 0, a, [4, 2, 0], 2, 2], ['C', 1, a, [4, 2, 0], 2, 2], ['M', 0, g, mode],
+                           ['G', 1, g], ['G', 1, 2 if g == 1 else 0], ['G', 0, g]])
+    for a in srcs:
+        for b in srcs:
+            hs.append([['C', 0, a, [5, 2, 2], 3, 3], ['C', 1, b, [3, 0, 0], 0, 2], ['M', 0, 0, 0], ['M', 0, 5, 0], ['M', 0, 2, 0], ['X', 0, 3],
+                       ['L', 0, 'commit'], ['G', 1, 0], ['G', 1, 5], ['G', 1, 2], ['G', 1, 6], ['G', 1, 4], ['L', 1, 'commit'], ['L', 1, 'get'], ['X', 1, 0]])
+    return hs
+
+def exhaustive_histories(maxlen=4):
+    """thorough: every history of length <= maxlen over 4 profiles (one slot each) x 4 operations
+    (an operation on a slot only after a construction on it)."""
     profs = ['nexus', 'junos', 'default', '@user']
     alpha = []
     for s, p in enumerate(profs):
@@ -461,7 +487,7 @@ def exhaustive_histories():
         alpha += [['L', s, 'commit']]
     out = [[]]
     frontier = [[]]
-    for _ in range(4):
+    for _ in range(maxlen):
         frontier = [h + [e] for h in frontier for e in alpha if (e[0] == 'C' or any(x[0] == 'C' and x[1] == e[1] for x in h))]
         out += frontier
     return out
@@ -581,7 +607,10 @@ def run(ctx):
         grid = [h for j, h in enumerate(grid) if j % 3 == ctx.seed % 3 or h[0][2] in ('nexus', 'sros', 'ericsson', 'huawei')]
     compare_all(ctx, grid, 'C16_base_uri/C16_subsystems_all/C16_getter_function_of_ctor', all_nontrivial=True)
     ctx.hist('section', 'grid', len(grid))
-    # (b) histories
+    # (b) histories: systematic pairs, then random
+    pairs = pair_histories(names)
+    compare_all(ctx, pairs, 'C16_isolated')
+    ctx.hist('section', 'pairs', len(pairs))
     lookups = sorted(set(STD_OPS) | {'frob', 'no_such_op', 'rollback', 'action', 'cli', 'exec_command', 'get_configuration', 'save_config',
                                      'md_cli_raw_command', 'load_configuration', 'save', 'command', 'cli_display'})
     nrand = 300 if ctx.tier == 'quick' else 3000
@@ -589,10 +618,10 @@ def run(ctx):
     compare_all(ctx, hs, 'C16_isolated')
     ctx.hist('section', 'random', len(hs))
     if ctx.tier == 'thorough':
-        ex = exhaustive_histories()
+        ex = exhaustive_histories(5)
         compare_all(ctx, ex, 'C16_isolated')
         ctx.hist('section', 'exhaustive', len(ex))
-        ctx.extra['exhaustive_scope'] = 'all %d histories of length <= 4 over 4 profiles (nexus, junos, default, user class) x {construct, get+mutate capabilities, xpath with caller namespaces, lookup commit}' % len(ex)
+        ctx.extra['exhaustive_scope'] = 'all %d histories of length <= 5 over 4 profiles (nexus, junos, default, user class) x {construct, get+mutate capabilities, xpath with caller namespaces, lookup commit}' % len(ex)
     ctx.exhaustive = False
 
 def search(ctx, seeds):
@@ -614,10 +643,14 @@ def search(ctx, seeds):
     # neighbours: every seed history preceded / interleaved with operations of another slot
     extra = []
     for h in tries[:20]:
+        # the same operations repeated on a second slot (same classes): class-level / default-argument state
+        twin = [[e[0], e[1] + 10] + list(e[2:]) for e in h]
+        extra.append(h + twin); extra.append([x for pr in zip(h, twin) for x in pr])
+        extra.append(h + [e for e in twin if e[0] == 'C'] + [['G', e[1] + 10, g] for e in h if e[0] == 'C' for g in range(7)])
         for p in ('nexus', 'junos', 'sros', '@user'):
             other = [['C', 9, p, [4, 2, 0], 3, 2], ['M', 9, 0, 1], ['M', 9, 5, 1], ['X', 9, 3], ['M', 9, 2, 0]]
             extra.append(other + h); extra.append(h[:1] + other + h[1:])
-    tries += extra + grid_histories(names)[::7] + [gen_history(rng, names, lookups) for _ in range(1500)] + exhaustive_histories()[:3000]
+    tries += extra + pair_histories(names) + grid_histories(names)[::7] + [gen_history(rng, names, lookups) for _ in range(1500)] + exhaustive_histories()[:3000]
     class Quiet:
         def fail(self, *a, **k): pass
     for i in range(0, len(tries), 500):
@@ -632,8 +665,8 @@ def search(ctx, seeds):
         for h in chunk:
             fails = judge(Quiet(), h, memo[key_of(h)], memo, {'advertised': it['advertised']}, report=False)
             if fails:
-                h2 = shrink(h, {'advertised': it['advertised']})
-                what, exp, act = judge_one(h2, {'advertised': it['advertised']})[0]
+                h2 = shrink(h, {'advertised': it['advertised']}, clause(fails[0][0]))
+                what, exp, act = [f for f in judge_one(h2, {'advertised': it['advertised']}) if clause(f[0]) == clause(fails[0][0])][0]
                 return dict(case={'history': h2}, what=what, sig=None, expected=exp, actual=act)
     return None
 
@@ -647,15 +680,19 @@ def judge_one(h, tables):
         def fail(self, *a, **k): pass
     return judge(Quiet(), h, memo[key_of(h)], memo, tables, report=False)
 
-def shrink(h, tables):
-    """Greedy removal of events while the oracle still fails."""
+def clause(what):
+    """Which clause of the property a failure message belongs to (first two words)."""
+    return ' '.join(what.split()[:2]) if not what.startswith('slot ') else 'slot'
+
+def shrink(h, tables, cl):
+    """Greedy removal of events while the same clause of the oracle still fails."""
     cur = h
     changed = True
     while changed and len(cur) > 1:
         changed = False
         for j in range(len(cur)):
             cand = cur[:j] + cur[j + 1:]
-            if cand and judge_one(cand, tables):
+            if cand and any(clause(f[0]) == cl for f in judge_one(cand, tables)):
                 cur = cand; changed = True; break
     return cur
 
